@@ -25,10 +25,27 @@ _real_open = builtins.open
 _real_unlink = os.unlink
 _real_remove = os.remove
 _real_copy2 = shutil.copy2
+_real_os_write = os.write
+_real_NamedTemporaryFile = tempfile.NamedTemporaryFile
 
 
 class SourceError(Exception):
     """Raised by an instrumented feature source at a planned position."""
+
+
+class TornWrite(BaseException):
+    """Internal: tells the writing seam to write half of the data and kill the process."""
+
+
+def _torn(fh, data):
+    try:
+        fh.write(data[: len(data) // 2])
+        fh.flush()
+    finally:
+        c = CTX
+        if c is not None and c.on_crash is not None:
+            c.on_crash(c.n - 1, "fs.write")
+        os._exit(137)
 
 
 class Ctx(object):
@@ -53,6 +70,7 @@ class Ctx(object):
         self.tmp_names = None  # explicit candidate-name list (else t0000, t0001, ...)
         self.fail_lines = {}  # basename -> line index at which reading raises
         self.kind_hist = {}  # kind -> count since node start (evidence)
+        self.short_writes = False  # buggify: os.write() on files in the WORLD performs a (legal) short write
 
     def begin_op(self, faults):
         self.active = True
@@ -121,6 +139,12 @@ def _fire(c, spec, idx, kind, detail):
         e = KeyboardInterrupt("injected cancel at point %d (%s)" % (idx, kind))
         e._gffsim = True
         raise e
+    if mode == "torn":
+        # a write that is cut short by the death of the process: the writer performs half of it, then _exit
+        if kind != "fs.write":
+            return
+        c.fired.append({"at": idx, "kind": kind, "mode": mode})
+        raise TornWrite()
     if mode == "locked":
         # sqlite's answer when another connection holds a conflicting lock and the busy timeout expires
         if kind not in ("sql", "commit"):
@@ -222,7 +246,10 @@ class FileProxy(object):
         return self._fh.name
 
     def write(self, s):
-        point("fs.write", self._base)
+        try:
+            point("fs.write", self._base)
+        except TornWrite:
+            _torn(self._fh, s)
         return self._fh.write(s)
 
     def _before_line(self):
@@ -307,6 +334,51 @@ def sim_copy2(src, dst, *args, **kwargs):
     return r
 
 
+class TmpProxy(object):
+    """Wraps the object returned by tempfile.NamedTemporaryFile so that its writes are seam points."""
+
+    def __init__(self, tf):
+        object.__setattr__(self, "_tf", tf)
+
+    def write(self, data):
+        try:
+            point("fs.write", "tmpcopy")
+        except TornWrite:
+            _torn(self._tf, data)
+        return self._tf.write(data)
+
+    def __getattr__(self, name):
+        return getattr(self._tf, name)
+
+    def __enter__(self):
+        self._tf.__enter__()
+        return self
+
+    def __exit__(self, *a):
+        return self._tf.__exit__(*a)
+
+
+def sim_NamedTemporaryFile(*args, **kwargs):
+    tf = _real_NamedTemporaryFile(*args, **kwargs)
+    c = CTX
+    if c is None or not c.active:
+        return tf
+    return TmpProxy(tf)
+
+
+def sim_os_write(fd, data):
+    c = CTX
+    if c is not None and c.active and c.short_writes and len(data) > 1:
+        try:
+            target = os.readlink("/proc/self/fd/%d" % fd)
+        except OSError:
+            target = ""
+        if target.startswith(c.world):
+            point("fs.write", "os.write")
+            return _real_os_write(fd, data[: max(1, len(data) // 2)])  # a short write is legal behaviour of write(2)
+    return _real_os_write(fd, data)
+
+
 class DetNames(object):
     """Deterministic replacement for tempfile._RandomNameSequence.
 
@@ -345,6 +417,8 @@ def install():
     os.unlink = sim_unlink
     os.remove = sim_remove
     shutil.copy2 = sim_copy2
+    os.write = sim_os_write
+    tempfile.NamedTemporaryFile = sim_NamedTemporaryFile
     _installed = True
 
 
